@@ -114,6 +114,9 @@ def mk(lam, helpers, depth=1, tags=(), group="", scope="g"):
             src = "def %s(%s):\n    t_ = %s\n    return t_" % (h, plist, body)
         elif kind == "lambda":
             src = "%s = lambda %s: %s" % (h, plist, body)
+        elif kind == "value":
+            vs.append(Var(h, scope, "%s = %s" % (h, body), "%s = 'REBOUND'" % h))
+            continue
         else:
             raise ValueError(kind)
         inl = kind in ("def", "doc")
@@ -122,7 +125,7 @@ def mk(lam, helpers, depth=1, tags=(), group="", scope="g"):
                       helper=(params if plain else [plist], body) if inl else None,
                       byname=True, lam_helper=(kind == "lambda")))
         if inl and plain:
-            # open findings the proposed fixes leave: see capture_common.classify_known
+            # histogram tags only (former open findings, closed by FC4 / FC5)
             lt = ast.parse(lam, mode="eval").body
             for c in ast.walk(lt):
                 if isinstance(c, ast.Call) and isinstance(c.func, ast.Name) and c.func.id == h:
@@ -136,6 +139,12 @@ def mk(lam, helpers, depth=1, tags=(), group="", scope="g"):
             if free & lam_binders:
                 tags.add("helper-free-name")
     return Case(lam, vs, depth, tags, group=group)
+
+
+def _keep(case):
+    for v in case.vars:
+        v.after = ""
+    return case
 
 
 def corpus():
@@ -158,7 +167,26 @@ def corpus():
     out.append(mk("lambda e: e.jets.Select(h)", [("h", ["p"], "p.pt", "def")], tags={"as-value"}, group="corpus"))
     out.append(mk("lambda e: e.jets.Select(lambda a: h(e.x, a.pt))", [("h", ["a", "b"], "a - b", "def")], tags={"arg-names"}, group="corpus"))
     out.append(mk("lambda b: h(b.a, 1) + h(1, b.a)", [("h", ["a", "b"], "a - b", "def")], tags={"arg-names"}, group="corpus"))
-    # the open findings (hygiene that the small fixes do not give)
+    # FC5: free names of a helper are frozen with the helper's own closure; helpers of helpers are inlined;
+    # recursion leaves the helper by name
+    out.append(mk("lambda e: h7(e.z)", [("G", [], "7", "value"), ("h7", ["a"], "a + G", "def")], tags={"FC5"}, group="corpus"))
+    out.append(mk("lambda e: h7(e.z)", [("G", [], "[1, 2]", "value"), ("h7", ["a"], "a + G[0]", "def")], tags={"FC5"}, group="corpus"))
+    # (recursive helpers stay by name and are executed by the oracle: they are not rebound after the call)
+    out.append(_keep(mk("lambda e: rr(e.z)", [("rr", ["a"], "rr(a - 1) if a > 0 else 0", "def")], tags={"FC5", "recursive"}, group="corpus")))
+    out.append(_keep(mk("lambda e: ev(e.z)", [("ev", ["a"], "od(a - 1) if a > 0 else 1", "def"), ("od", ["a"], "ev(a - 1) if a > 0 else 0", "def")],
+                        tags={"FC5", "recursive"}, group="corpus")))
+    out.append(mk("lambda e: hg(e.a)", [("mg", ["q"], "q * 2", "multi"), ("hg", ["a"], "mg(a) + 1", "def")], tags={"FC5"}, group="corpus"))
+    out.append(mk("lambda G: h7(G.z)", [("G", [], "7", "value"), ("h7", ["a"], "a + G", "def")], tags={"FC5"}, group="corpus"))
+    # FC4: an argument name that a binder inside the body binds again: the call stays
+    out.append(mk("lambda e: (lambda x: sum(e.jets.Select(lambda e: x + e.pt)))(e.a)", [], tags={"FC4"}, group="corpus"))
+    out.append(mk("lambda j: sum([h(j.a, j.b) for j in j.jets])", [("h", ["a", "b"], "sum([a + b + j for j in [1, 2]])", "def")], tags={"FC4"}, group="corpus"))
+    out.append(mk("lambda e: (lambda a: (lambda b: sum(e.jets.Select(lambda a: b + a.pt)))(a + 1))(e.a)", [], tags={"FC4"}, group="corpus"))
+    # FC6: a function the helper calls by name has the name of a parameter of the passed lambda: the helper stays by name
+    out.append(mk("lambda mg: hg(mg.a)", [("mg", ["q"], "q * 2", "multi"), ("hg", ["a"], "mg(a) + 1", "def")], tags={"FC6"}, group="corpus"))
+    out.append(mk("lambda e: sum(e.jets.Select(lambda mg: hg(mg.pt)))", [("mg", ["q"], "q * 2", "multi"), ("hg", ["a"], "mg(a) + 1", "def")], tags={"FC6"}, group="corpus"))
+    out.append(mk("lambda e: sum([hg(mg.pt) for mg in e.jets]) + hg(e.a)", [("mg", ["q"], "q * 2", "multi"), ("hg", ["a"], "mg(a) + 1", "def")], tags={"FC6"}, group="corpus"))
+    out.append(mk("lambda abs: h(abs.a)", [("h", ["a"], "abs(a) + 1", "def")], tags={"FC6"}, group="corpus"))
+    # the former open findings (closed by FC4 and FC5)
     out.append(mk("lambda j: h(j)", [("h", ["a"], "sum(a.jets.Select(lambda j: j.pt + a.pt))", "def")], group="corpus"))
     out.append(mk("lambda e: h(e.a)", [("h", ["a"], "a + e", "def")], group="corpus", tags=()).__class__ and
                Case("lambda e: h(e.a)", [Var("e", "g", "e = 100", "e = 0"),
@@ -218,23 +246,35 @@ def structured(ctx):
 
 
 def inlinable_left_by_name(case: Case, tree) -> list:
-    """Structural part of the oracle: a direct positional call of an inlinable helper must not survive by name."""
-    inl = {v.name for v in case.vars if v.helper is not None and isinstance(v.helper[0], list) and len(v.helper[0]) >= 1
-           and all(p.isidentifier() for p in v.helper[0])}
-    inside = set()
-    for v in case.vars:
-        if v.helper is not None:
-            inside |= names_of(v.helper[1])
-    lt = ast.parse(case.lam, mode="eval").body
+    """Structural part of the oracle: a plain positional call of an inlinable, non-recursive helper - in the passed
+    lambda or in the body of another helper (FC5) - must not survive as a call by name."""
+    helpers = {v.name: v for v in case.vars if v.helper is not None and isinstance(v.helper[0], list)
+               and all(p.isidentifier() for p in v.helper[0])}
+    calls = {h: names_of(v.helper[1]) & set(helpers) for h, v in helpers.items()}
+
+    def reaches(a, b, seen=()):
+        return any(c == b or (c not in seen and reaches(c, b, seen + (c,))) for c in calls.get(a, ()))
+
+    recursive = {h for h in helpers if reaches(h, h)}
     direct = set()
-    for c in ast.walk(lt):
-        if isinstance(c, ast.Call) and isinstance(c.func, ast.Name) and c.func.id in inl and not c.keywords \
-                and not any(isinstance(a, ast.Starred) for a in c.args):
-            hv = [v for v in case.vars if v.name == c.func.id][-1]
-            if len(c.args) == len(hv.helper[0]):
+    for t in [ast.parse(case.lam, mode="eval").body] + [ast.parse(v.helper[1], mode="eval").body for v in helpers.values()]:
+        for c in ast.walk(t):
+            if isinstance(c, ast.Call) and isinstance(c.func, ast.Name) and c.func.id in helpers and not c.keywords \
+                    and not any(isinstance(a, ast.Starred) for a in c.args) and len(c.args) == len(helpers[c.func.id].helper[0]):
                 direct.add(c.func.id)
+    # a parameter of the passed lambda (or an inner binder) of the same name hides the helper: python calls the parameter
+    hidden = binders_of(case.lam)
     left = {n.func.id for n in ast.walk(tree) if isinstance(n, ast.Call) and isinstance(n.func, ast.Name)}
-    return sorted((direct - inside) & left)
+    # FC6: a helper that (transitively) keeps a name free which the call site binds is left by name on purpose
+    def free(h, seen=()):
+        v = helpers[h]
+        f = names_of(v.helper[1]) - set(v.helper[0]) - binders_of(v.helper[1])
+        for c in calls[h]:
+            if c not in seen:
+                f |= free(c, seen + (c,))
+        return f
+    clash = {h for h in helpers if free(h) & hidden}
+    return sorted((((direct - recursive) - hidden) - clash) & left)
 
 
 def run(ctx):
